@@ -72,7 +72,22 @@ def taint_rule(res, fx, rule='TAINT'):
                 continue
             ok = bool(h['just']) and not bad_arith
             msg = None
-            if not ok:
+            # SAME-READER: bytes taken at R.GetCurrentReadPointer() must be bounded by R's remaining bytes
+            if ok and kind in ('READER', 'COPY'):
+                rr = None
+                for x in n.walk():
+                    if x['k'] == 'CXXMemberCallExpr' and (x.get('q') or '').endswith('DataUnflattenerHelper::GetCurrentReadPointer') and x.receiver() is not None:
+                        rr = A.root_loc(x.receiver())
+                if rr is not None and rr != ('tmp',):
+                    ft = eng.ft(f)
+                    jr = ft.bounded_by_remaining(h['expr'], n, rr)
+                    if not jr:
+                        ok = False
+                        msg = ('%s: `%s` bytes are taken at the reader\'s current read pointer (%s) but the dominating bound (%s) is not that reader\'s remaining byte count '
+                               '(GetNumBytesAvailable()): the copy/child reader can run past the end of the input' % (f.q, h['expr'].text(60), n.text(60), h['just'][:120]))
+                    else:
+                        h['just'] = jr + ' [same reader]'
+            if not ok and msg is None:
                 if not h['just']:
                     msg = ('%s: wire-derived `%s` reaches %s without a dominating comparison against a trusted bound: %s'
                            % (f.q, h['expr'].text(80), kind + (' in ' + via if via else ''),
